@@ -450,7 +450,14 @@ def run(ctx, out):
     ngrid = 400 if tier == 'quick' else 4000
     cases = []
     for k in range(ncl):
-        rec = G.gen_curve_record(rng, G.DS_CLASSES[k % len(G.DS_CLASSES)])
+        if k % 5 == 4:
+            # the classification-oriented generator (odd shapes: rises spanning several bursts,
+            # chains, gaps, runs touching the ends of a stretch); few of these give a curve
+            rec = GC.gen_record(rng, GC.CLASSES[(k // 5) % len(GC.CLASSES)])
+            rec['grid'] = rng.choice(G.GRID_STEPS)
+            rec['cls'] = 'classify-' + rec['cls']
+        else:
+            rec = G.gen_curve_record(rng, G.DS_CLASSES[k % len(G.DS_CLASSES)])
         tamper = TAMPERS[(k // 4) % len(TAMPERS)][0] if k % 4 == 3 else None
         cases.append((rec, tamper))
     check_cl(cases, out, 'cl')
